@@ -119,7 +119,7 @@ def run(ctx):
         cfit = kind == "cfit"
         n, nmc = 83, 160
         data = lik.make_sample(cfg, card, n, rng, "positive" if i % 2 else "ones", cfit=cfit)
-        phsp = lik.make_sample(cfg, card, nmc, rng, "ones", cfit=cfit)
+        phsp = lik.make_sample(cfg, card, nmc, rng, ["ones", "positive", "mixed_mild"][i % 3], cfit=cfit)
         bg = None if cfit else lik.make_sample(cfg, card, 17, rng, "ones")
         try:
             with quiet():
